@@ -230,14 +230,14 @@ theorem visitSoyFile_renders (ho : o.messages = none) (f : SoyFile) (r : List Js
     obtain ⟨nps, hn⟩ := namespace_runs sk o (ind := 0) (buf := []) (ae := .unspecified) (sc := ⟨[[]], 0⟩) p name ae'
     have ht := walkTop_renders sk o ho ae' rest [] _ r h 0
     have hall : Runs (At 0 [] .unspecified ⟨[[]], 0⟩) (AtF 0 ae' r.2) (visitSoyFile sk o f)
-        (([.fixed (spaces 0), .fixed b!"// This file was automatically generated from ", .comment f.name, .fixed b!".", .fixed [10],
+        (([.fixed (spaces 0), .fixed b!"// This file was automatically generated from ", .comment (commentName f.name), .fixed b!".", .fixed [10],
           .fixed (spaces 0), .fixed b!"// Please don't edit this file by hand.", .fixed [10], .fixed (spaces 0), .fixed [10]] ++ nps) ++
           r.1.flatMap (renderFunc (isEs6 o) 0)) := by
       unfold visitSoyFile
       rw [hbody]
       unfold walkTop
       refine Runs.cast (?_ : Runs _ _ _ ([] ++ ([.fixed (spaces 0)] ++ ([.fixed b!"// This file was automatically generated from "] ++
-        ([.comment f.name] ++ ([.fixed b!"."] ++ ([.fixed [10]] ++ ([.fixed (spaces 0)] ++
+        ([.comment (commentName f.name)] ++ ([.fixed b!"."] ++ ([.fixed [10]] ++ ([.fixed (spaces 0)] ++
         ([.fixed b!"// Please don't edit this file by hand."] ++ ([.fixed [10]] ++ ([.fixed (spaces 0)] ++ ([.fixed [10]] ++
         (nps ++ r.1.flatMap (renderFunc (isEs6 o) 0)))))))))))))) (by simp)
       exact Runs.seq Runs.atOther (Runs.seq Runs.indentP (Runs.seq (Runs.fx _) (Runs.seq (Runs.emit _) (Runs.seq (Runs.fx _)
@@ -601,9 +601,8 @@ set_option maxRecDepth 16000 in
 example : (toFile sampleFile).map (fun r => printPieces (r.1.flatMap (renderFunc false 0))) = some sampleFuncsText := by decide +kernel
 
 -- … are what the generator model writes after the comment lines and the namespace declaration
-set_option maxRecDepth 16000 in
-example : gen id sampleFile {} = .ok
-    (b!"// This file was automatically generated from sem.soy.\n// Please don't edit this file by hand.\n\nif (typeof sem == 'undefined') { var sem = {}; }\n" ++ sampleFuncsText) := rfl
+example : (gen id sampleFile {}).toOption = some
+    (b!"// This file was automatically generated from sem.soy.\n// Please don't edit this file by hand.\n\nif (typeof sem == 'undefined') { var sem = {}; }\n" ++ sampleFuncsText) := by decide +kernel
 
 -- the entry function called through the table of the file's functions
 set_option maxRecDepth 16000 in
